@@ -45,6 +45,37 @@ def _num_value(t):
     return None
 
 
+def _factors(e):
+    """e == coef * prod(rest) with coef a Fraction and rest non-numeral factors; products and quotients by numerals are
+    flattened.  (None, [e]) if e is not of that form."""
+    v = _num_value(e)
+    if v is not None:
+        return v, []
+    if z3.is_app(e):
+        k = e.decl().kind()
+        if k == z3.Z3_OP_MUL:
+            coef, rest = Fraction(1), []
+            for ch in e.children():
+                c2, r2 = _factors(ch)
+                if c2 is None:
+                    rest.append(ch)
+                else:
+                    coef *= c2
+                    rest.extend(r2)
+            return coef, rest
+        if k == z3.Z3_OP_DIV:
+            d = _num_value(e.arg(1))
+            if d is not None and d != 0:
+                c2, r2 = _factors(e.arg(0))
+                if c2 is not None:
+                    return c2 / d, r2
+        if k == z3.Z3_OP_UMINUS:
+            c2, r2 = _factors(e.arg(0))
+            if c2 is not None:
+                return -c2, r2
+    return Fraction(1), [e]
+
+
 def linear_form(t):
     """t == const + sum coef_i * atom_i  ->  (dict id -> [atom, coef], const).  Non-linear subterms are atoms."""
     lin, const = {}, Fraction(0)
@@ -77,31 +108,22 @@ def linear_form(t):
             if k == z3.Z3_OP_UMINUS:
                 go(e.arg(0), -c)
                 return
-            if k == z3.Z3_OP_MUL:
-                nums, rest = Fraction(1), []
-                for ch in e.children():
-                    v = _num_value(ch)
-                    if v is not None:
-                        nums *= v
-                    else:
-                        rest.append(ch)
-                if len(rest) == 1:
-                    go(rest[0], c * nums)
-                    return
-                if len(rest) == 0:
-                    const += c * nums
-                    return
-                if nums != 1:
-                    prod = rest[0]
-                    for r_ in rest[1:]:
-                        prod = prod * r_
-                    add(prod, c * nums)  # numeral coefficient pulled out of a non-linear product (the product is the atom)
-                    return
-            if k == z3.Z3_OP_DIV:
-                d = _num_value(e.arg(1))
-                if d is not None and d != 0:
-                    go(e.arg(0), c / d)
-                    return
+            if k in (z3.Z3_OP_MUL, z3.Z3_OP_DIV):
+                coef, rest = _factors(e)
+                if coef is not None:
+                    if len(rest) == 0:
+                        const += c * coef
+                        return
+                    if len(rest) == 1 and rest[0].get_id() != e.get_id():
+                        go(rest[0], c * coef)
+                        return
+                    if len(rest) > 1 and (coef != 1 or k == z3.Z3_OP_DIV):
+                        rest = sorted(rest, key=lambda x: x.get_id())
+                        prod = rest[0]
+                        for r_ in rest[1:]:
+                            prod = prod * r_
+                        add(prod, c * coef)  # numeral coefficient pulled out of a non-linear product (the product is the atom)
+                        return
         add(e, c)
 
     go(t, Fraction(1))
